@@ -75,7 +75,7 @@ W_CHOICES = [1.0, 3.0, 0.5, 2.0]
 
 
 def gen_cfg(r, tier, dims=(1, 2, 2, 2, 3, 3, 4), versions=(6, 6, 6, 2, 3, 7, 8), boundary_p=0.7, rebal_p=0.5,
-            estimator="keyed", max_evals=None, focus_p=0.1):
+            estimator="keyed", max_evals=None, focus_p=0.1, cluster_p=0.05):
     dim = r.choice(dims)
     lmin = r.choice([1, 1, 1, 2, 2, 3] if dim <= 3 else [1, 1, 2])
     lmax = lmin + r.choice([1, 1, 1, 2, 2, 3] if dim <= 2 else [1, 1, 2])
@@ -108,9 +108,11 @@ def gen_cfg(r, tier, dims=(1, 2, 2, 2, 3, 3, 4), versions=(6, 6, 6, 2, 3, 7, 8),
             # reach points whose level is below lmin
             cfg["bias"] = [r.choice(["right", "left"]), r.choice([1, 2, 4])]
             if r.random() < 0.5:
-                cfg.update(dim=r.choice([1, 2]), lmin=3, lmax=r.choice([3, 4]), safety=r.choice([0.0, 0.1]))
+                cfg.update(dim=r.choice([1, 2, 2]), lmin=3, lmax=r.choice([3, 4, 4]), safety=r.choice([0.0, 0.1]))
                 cfg["a"], cfg["b"] = cfg["a"][:cfg["dim"]], cfg["b"][:cfg["dim"]]
-    if max_evals is None and not cfg.get("long_narrow") and r.random() < focus_p:
+    import os as _os
+    _force = _os.environ.get("VERIF_DEBUG_FAMILY")       # debugging knob (never set by the registered commands): force one family
+    if max_evals is None and not cfg.get("long_narrow") and (r.random() < focus_p or _force in ("focus", "deep")):
         # sharply localised driver: per dimension the interval containing one target point is refined step after step while the
         # rest of the dimension stays at its initial depth (lmax raised repeatedly next to untouched regions), from start
         # levels with lmax - lmin >= 2
@@ -122,7 +124,28 @@ def gen_cfg(r, tier, dims=(1, 2, 2, 2, 3, 3, 4), versions=(6, 6, 6, 2, 3, 7, 8),
                         (["uneven"] if r.random() < 0.5 else []))
         if len(cfg["bias"]) > 3:
             cfg["evals"] = r.randint(4, 8 if tier == "quick" else 11)
+        if r.random() < 0.3 or _force == "deep":
+            # deep start levels with lmax = lmin + 1 and rebalancing: a rotation near a localised refinement lifts a sparsely refined
+            # sub-tree to level lmin (points whose level equals the minimum level while the component levels range above it)
+            cfg.update(dim=2, lmin=3, lmax=4, rebalancing=True, safety=r.choice([0.0, 0.1]), evals=r.randint(3, 6 if tier == "quick" else 8),
+                       version=r.choice([6, 6, 7, 8, 2, 3]))
+            cfg["bias"][2] = r.choice([0.01, 0.3, 0.3, 0.6])
+            cfg["bias"][1] = cfg["bias"][1][:2]
+            dim = 2
         cfg["a"] = (cfg["a"] + [0.0] * dim)[:dim]
+        cfg["b"] = [x + r.choice(W_CHOICES) for x in cfg["a"]]
+    if max_evals is None and not cfg.get("long_narrow") and not cfg.get("focus") and (r.random() < cluster_p or _force == "cluster"):
+        # wandering clusters from deep start levels with lmax = lmin + 1 and rebalancing: per dimension all intervals overlapping a
+        # window are refined; the window moves and breathes from step to step. Rotations next to a cluster lift sparsely refined
+        # sub-trees to the minimum level while component levels range above it (measured: the states seeded change c03h needs are
+        # reached in about 1 % of these histories, in none of the single-point focus histories)
+        lm = r.choice([3, 3, 3, 2])
+        cfg.update(dim=2, lmin=lm, lmax=lm + 1, rebalancing=True, safety=r.choice([0.0, 0.1]), version=r.choice([6, 6, 6, 7, 7, 8, 8, 2, 3]),
+                   margin=r.choice([0.5, 0.9, 1.0]), mode="mix", p_zero=0.0, p_tie=0.0, use_epoch=True, cluster=True,
+                   evals=r.randint(4, 6 if tier == "quick" else 8), max_intervals=150, max_points=8000,
+                   bias=["window", [[r.choice([0.1, 0.3, 0.5, 0.8125, 0.9, round(r.random(), 3)]), r.choice([0.03, 0.03, 0.0625, 0.125, 0.2])] for _ in range(2)],
+                         r.choice([0.0, 0.0, 0.01]), "wander"])
+        cfg["a"] = (cfg["a"] + [0.0, 0.0])[:2]
         cfg["b"] = [x + r.choice(W_CHOICES) for x in cfg["a"]]
     # benefit scale and answers placed just below / just above the margin fraction of the largest answer: the selection rule
     # is a comparison of floats, not "close to"
@@ -686,8 +709,9 @@ class ExactnessMonitor(Monitor):
                                 sim.n_eval, spec, got, want, tol, list(sim.sa.lmax), sorted(scheme.items())), taint="exactness")
                 return
         ctx.ok("probe_integral_exact", len(f.probes))
-        if not f.probes or "interpolation" in ctx.tainted or sim.strategy == "cell":
-            return          # the cell scheme does not support interpolation
+        if not f.probes or "interpolation" in ctx.tainted or sim.strategy == "cell" or \
+                (sim.strategy == "extend_split" and c.get("grid", "TrapezoidalGrid") != "TrapezoidalGrid"):
+            return          # the cell scheme does not support interpolation; the other local grid families are checked on integrals
         # interpolation at seeded points: random interior points, interval end points, grid points
         P = []
         for k in range(self.npoints):
